@@ -3,7 +3,8 @@ CONSTANTS
   Proto = "fcgi"
   Level = 1
   MaxChain = 1
-  Pads = {0,1,7}
+  Pads = {0,7}
   Caps = {16384}
+  MaxRead = 3
 INVARIANTS SegInv NotStuck CrossInv
 CHECK_DEADLOCK FALSE
